@@ -21,8 +21,12 @@ MANIFEST = {
             'smallest size, plus the capacity the test asks for) are extracted, the closed form of the matching query is extracted from the '
             'MIR of max_*_buffer_length and its helpers (branches on state fields fork, crate-local helpers inlined, constants folded) and '
             'evaluated at that byte count: the query must cover the demand in every abstract state consistent with the path that the final '
-            'stores of some decode path can leave the decoder in (73 entry paths decided on the pinned tree, several of them tight; shapes '
-            'not understood are counted as undecided, not reported). (D5, R-ENCCOST) the encoder queries of the handle-based encoders (Big5, EUC-JP, EUC-KR, gb18030 in both modes, Shift_JIS, '
+            'stores of some decode path can leave the decoder in (81 entry paths decided on the pinned tree, several of them tight; shapes '
+            'not understood are counted as undecided, not reported); and the same through the with-replacement wrapper (R-ENTRYCOST.chain): for '
+            'every entry path that ends in a Malformed report, the state its final stores leave behind, and every entry path to a failing '
+            'space test whose entry conditions that state decides, the with-replacement query evaluated in the first state at the total byte '
+            'count must cover units stored + U+FFFD + the second path\'s demand (200 chains decided: UTF-16, Big5, EUC-JP, EUC-KR, '
+            'ISO-2022-JP, single-byte). (D5, R-ENCCOST) the encoder queries of the handle-based encoders (Big5, EUC-JP, EUC-KR, gb18030 in both modes, Shift_JIS, '
             'single-byte from UTF-8, x-user-defined): the closed form a*n + c of max_buffer_length_from_utf8/utf16_without_replacement is '
             'extracted and the amortised budget invariant free >= a*(units left) + c is checked on every loop path: a character of a class that '
             'occupies at least k source units is written with at most a*k bytes, and every space test (the ASCII fast path\'s test for the '
@@ -320,6 +324,7 @@ def run(rep, facts, tier):
         d2(rep, f, c)
         d3(rep, f, c)
         n, und = r_entrycost.run(rep, f, c)
-        rep.floor('R-ENTRYCOST', 'entry paths to a failing space test decided against the query', n, 60, c)
+        rep.floor('R-ENTRYCOST', 'entry paths to a failing space test decided against the query', n, 65, c)
+        rep.floor('R-ENTRYCOST.chain', 'two-call chains through a malformed report decided', rep.counts.get('entrycost.chain.decided:' + c, 0), 150, c)
         r_enccost.run(rep, f, c)
     return ('other', MANIFEST['text'], ['numerical sufficiency of the formulas beyond the first failing space test of a call is NOT decided'])
